@@ -48,6 +48,15 @@ def direct_rw(fn, meths, props):
             node = node.value
         return node.id if isinstance(node, ast.Name) else None
 
+    # local names bound directly to an attribute (`x = self._y`): in-place stores through the
+    # alias are stores into the attribute
+    alias = {}
+    for n in ast.walk(fn):
+        if isinstance(n, ast.Assign) and len(n.targets) == 1 and isinstance(n.targets[0], ast.Name):
+            v = n.value
+            if isinstance(v, ast.Attribute) and isinstance(v.value, ast.Name) and v.value.id == 'self' and v.attr.startswith('_'):
+                alias[n.targets[0].id] = v.attr
+
     for n in ast.walk(fn):
         if isinstance(n, ast.Attribute) and isinstance(n.value, ast.Name) and n.value.id == 'self':
             a = n.attr
@@ -69,10 +78,14 @@ def direct_rw(fn, meths, props):
                     if a is not None and a.startswith('_'):
                         writes.add(a)
                     b = base_name(t)
+                    if b in alias:
+                        writes.add(alias[b])
                     if b in params:
                         mut.append('%s:%d:%s' % (fn.name, n.lineno, src(t)[:60]))
                 if isinstance(n, ast.AugAssign) and isinstance(t, ast.Name) and t.id in params:
                     mut.append('%s:%d:%s' % (fn.name, n.lineno, src(n)[:60]))
+                if isinstance(n, ast.AugAssign) and isinstance(t, ast.Name) and t.id in alias:
+                    writes.add(alias[t.id])
                 if isinstance(t, ast.Attribute) and base_name(t) in params:
                     mut.append('%s:%d:%s' % (fn.name, n.lineno, src(t)[:60]))
         if isinstance(n, ast.Call):
